@@ -108,3 +108,35 @@ def run_state(chk):
                 break
     if len(chk.samples) < 8:
         chk.samples.append({"family": "state", "history": lines[:20]})
+
+
+def run_length_wrap(chk):
+    """Crafted parameter files whose shape has >= 2^30 elements and a tiny payload: the
+    load must be rejected by the length cross-check (no allocation, no out-of-bounds
+    copy).  Run with an allocation limit above 4 GiB so that a wrapped length check is
+    observed as the out-of-bounds read it causes, not masked by a failing allocation."""
+    import struct
+    from props import C13 as base
+    exe = build.build_harness("h_state")
+    H = base.file_header
+    lines = ["param 0 2 1,2"]
+    cases = []
+    for dims, payload in (([2 ** 30 + 1], b"\0" * 4), ([2 ** 30], b""), ([2 ** 31], b""), ([2 ** 31 + 2], b"\0" * 8),
+                          ([65536, 16384], b""), ([65536, 16385], b"\0" * 16)):
+        data = H(0x200) + base.enc_shape(dims, 1) + base.mp_bin(payload) + base.mp_u32(0)
+        cases.append(data)
+        # the same tensor as a statistics record
+        good = base.enc_tensor([2], 1, [0x3f800000, 0x40000000])
+        cases.append(H(0x200) + good + base.mp_u32(1) + base.mp_str(b"m") + base.enc_shape(dims, 1) + base.mp_bin(payload))
+    for data in cases:
+        lines.append("loadhex 0 " + data.hex())
+    env = {"ASAN_OPTIONS": vrun.ASAN_ENV["ASAN_OPTIONS"].replace("max_allocation_size_mb=3000", "max_allocation_size_mb=9000")}
+    outs, reports = vrun.run_impl(exe, lines, stateful=False, args=["naive"], timeout=300, env=env)
+    chk.traces += 1
+    for l, o in zip(lines, outs):
+        chk.count(l[:80], o, o.startswith("err"))
+        if l.startswith("loadhex") and o != "err unchanged":
+            chk.report("state:length-wrap:%s" % ("crash" if o.startswith("crash") else "accepted-or-changed"),
+                       "a parameter file whose shape needs >= 4 GiB with a payload of a few bytes was not rejected cleanly: `%s...` -> %s" % (l[:60], o[:300]),
+                       {"family": "state", "harness": "h_state", "harness_args": ["naive"], "stateful": True, "lines": [lines[0], l],
+                        "model_family": None, "observed": o[:600], "env": env})
